@@ -320,7 +320,20 @@ func (f *Fix) lendSetup() {
 	if f.PairCmdxCmst == 0 || f.PairAtomCmst == 0 {
 		panic(fmt.Sprintf("lend pairs not created: %+v", k.GetLendPairs(e.Ctx)))
 	}
-	// liquidity provider supplies every asset; owner and other lend CMDX and borrow CMST against it
+	// The order is chosen so that lend ids and borrow ids differ per user and every borrow id equals the id of a lend position
+	// of ANOTHER user (a handler that confuses the two ids then checks / pays the wrong party):
+	//   lend 1 other/CMDX, lend 2 owner/ATOM, lend 3 owner/CMDX, lends 4-6 liquidity provider, lend 7 other/ATOM, lend 8 risk/CMDX
+	//   borrow 1 owner (on lend 3) ~ lend 1 of other; borrow 2 other (on lend 1) ~ lend 2 of owner; borrow 3 risk (on lend 8) ~ lend 3 of owner
+	lendOf := func(u sdk.AccAddress, asset uint64) uint64 {
+		id, found := k.GetLendIDForAssetIDPoolID(e.Ctx, u.String(), asset, f.Pool)
+		if !found {
+			panic("lend id")
+		}
+		return id
+	}
+	mustOK(e.Deliver(lendtypes.NewMsgLend(f.Other.String(), f.CMDX, coin("ucmdx", 3000*unit), f.Pool, f.AppCommodo)), "other lend cmdx")
+	mustOK(e.Deliver(lendtypes.NewMsgLend(f.Owner.String(), f.ATOM, coin("uatom", 100*unit), f.Pool, f.AppCommodo)), "owner lend atom")
+	mustOK(e.Deliver(lendtypes.NewMsgLend(f.Owner.String(), f.CMDX, coin("ucmdx", 3000*unit), f.Pool, f.AppCommodo)), "owner lend cmdx")
 	for _, x := range []struct {
 		asset uint64
 		denom string
@@ -328,15 +341,9 @@ func (f *Fix) lendSetup() {
 		mustOK(e.Deliver(lendtypes.NewMsgLend(f.LP.String(), x.asset, coin(x.denom, 100000*unit), f.Pool, f.AppCommodo)), "lp lend "+x.denom)
 		mustOK(e.Deliver(lendtypes.NewMsgFundModuleAccounts(f.Pool, x.asset, f.LP.String(), coin(x.denom, 1000*unit))), "fund module "+x.denom)
 	}
-	for _, u := range []sdk.AccAddress{f.Owner, f.Other} {
-		mustOK(e.Deliver(lendtypes.NewMsgLend(u.String(), f.CMDX, coin("ucmdx", 3000*unit), f.Pool, f.AppCommodo)), "lend cmdx")
-		lendID, found := k.GetLendIDForAssetIDPoolID(e.Ctx, u.String(), f.CMDX, f.Pool)
-		if !found {
-			panic("lend id")
-		}
-		mustOK(e.Deliver(lendtypes.NewMsgBorrow(u.String(), lendID, f.PairCmdxCmst, false, coin("uccmdx", 1000*unit), coin("ucmst", 300*unit))), "borrow cmst")
-		mustOK(e.Deliver(lendtypes.NewMsgLend(u.String(), f.ATOM, coin("uatom", 100*unit), f.Pool, f.AppCommodo)), "lend atom")
-	}
+	mustOK(e.Deliver(lendtypes.NewMsgBorrow(f.Owner.String(), lendOf(f.Owner, f.CMDX), f.PairCmdxCmst, false, coin("uccmdx", 1000*unit), coin("ucmst", 300*unit))), "owner borrow cmst")
+	mustOK(e.Deliver(lendtypes.NewMsgLend(f.Other.String(), f.ATOM, coin("uatom", 100*unit), f.Pool, f.AppCommodo)), "other lend atom")
+	mustOK(e.Deliver(lendtypes.NewMsgBorrow(f.Other.String(), lendOf(f.Other, f.CMDX), f.PairCmdxCmst, false, coin("uccmdx", 1000*unit), coin("ucmst", 300*unit))), "other borrow cmst")
 	// a borrow at the loan-to-value limit: becomes unsafe when the hook cells lower the CMDX price
 	mustOK(e.Deliver(lendtypes.NewMsgLend(f.Risk.String(), f.CMDX, coin("ucmdx", 1000*unit), f.Pool, f.AppCommodo)), "risk lend")
 	rl, _ := k.GetLendIDForAssetIDPoolID(e.Ctx, f.Risk.String(), f.CMDX, f.Pool)
